@@ -610,6 +610,19 @@ def absorb_renaming_aliases(fn, recorded_names):
                 a, b = st.targets[0].id, st.value.id
                 stores_b = [n for n in ast.walk(fn) if isinstance(n, ast.Name) and n.id == b and isinstance(n.ctx, ast.Store)]
                 loads_b = _loads(fn, b)
+                if b not in recorded_names and b not in _params(fn) and len(stores_b) > 1 and len(loads_b) == 1 and a != b:
+                    # bound in several branches of the statements just before (an inlined helper with early returns):
+                    # every store lies earlier in this block, `a` is not touched from the first of them on
+                    where = [next((jj for jj in range(i) if any(x is sb for x in ast.walk(blk[jj]))), None) for sb in stores_b]
+                    if all(w is not None for w in where):
+                        j0 = min(where)
+                        aug = any(isinstance(au, ast.AugAssign) and isinstance(au.target, ast.Name) and au.target.id == b for au in ast.walk(fn))
+                        if not aug and not any(isinstance(x, ast.Name) and x.id == a for jj in range(j0, i) for x in ast.walk(blk[jj])):
+                            for sb in stores_b:
+                                sb.id = a
+                            del blk[i]
+                            k += 1
+                            continue
                 if b not in recorded_names and b not in _params(fn) and len(stores_b) == 1 and len(loads_b) == 1 and a != b:
                     # the definition of b lies earlier in the same block; `a` is not touched in between
                     j = next((jj for jj in range(i) if any(x is stores_b[0] for x in ast.walk(blk[jj]))), None)
@@ -1057,12 +1070,15 @@ def inline_new_helpers(project, rec):
                 while i < len(blk):
                     st = blk[i]
                     roots = []
+                    attr = "value"
                     if isinstance(st, (ast.Assign, ast.AnnAssign, ast.AugAssign, ast.Return, ast.Expr)) and getattr(st, "value", None) is not None:
                         roots = [st.value]
+                    elif isinstance(st, ast.If):
+                        roots, attr = [st.test], "test"  # evaluated once, before either branch
                     hoisted = False
                     for root in roots:
                         for c in ast.walk(root):
-                            if not isinstance(c, ast.Call) or c is root:
+                            if not isinstance(c, ast.Call) or (c is root and attr != "test"):
                                 continue
                             got, drop = resolve(c, caller)
                             if got is None or got[3][0] != "stmts" or got[0] is caller or got[3][2] is None:
@@ -1080,7 +1096,7 @@ def inline_new_helpers(project, rec):
                                         return ast.copy_location(ast.Name(id=tmp, ctx=ast.Load()), n)
                                     return self.generic_visit(n)
 
-                            st.value = H().visit(st.value)
+                            setattr(st, attr, H().visit(getattr(st, attr)))
                             blk.insert(i, new_asg)
                             hoisted = True
                             changed = True
@@ -1120,8 +1136,19 @@ def inline_new_helpers(project, rec):
                     sren = {}  # helper parameters that the helper rebinds: their stores are renamed too
                     for p_, a in b.items():
                         rebound = any(isinstance(x, ast.Name) and x.id == p_ and isinstance(x.ctx, (ast.Store, ast.Del)) for x in ast.walk(hfi.node))
+                        # `p += v` on a parameter annotated ndarray acts in place on the caller's array (numpy): the
+                        # helper's augmented assignments are the caller's
+                        aug_only = rebound and all(
+                            any(isinstance(au, ast.AugAssign) and au.target is x for au in ast.walk(hfi.node))
+                            for x in ast.walk(hfi.node)
+                            if isinstance(x, ast.Name) and x.id == p_ and isinstance(x.ctx, (ast.Store, ast.Del))
+                        )
+                        ann = next((ar.annotation for ar in hfi.node.args.args + hfi.node.args.kwonlyargs if ar.arg == p_), None)
                         if isinstance(a, (ast.Name, ast.Constant)) and not rebound:
                             ren[p_] = a
+                        elif isinstance(a, ast.Name) and aug_only and ann is not None and "ndarray" in ast.unparse(ann):
+                            ren[p_] = a
+                            sren[p_] = a.id
                         elif isinstance(a, ast.Name) and rebound and not any(isinstance(x, ast.Name) and x.id == a.id and isinstance(x.ctx, ast.Load) and getattr(x, "lineno", 0) > getattr(st, "end_lineno", getattr(st, "lineno", 0)) for x in ast.walk(fn)):
                             # the caller's variable is dead after the call: the helper's rebinding may act on it directly
                             ren[p_] = a
@@ -1259,6 +1286,7 @@ def normalise(project, path=PINNED):
         stats["helper_calls_inlined"] = inline_new_helpers(project, rec)
     except RecursionError:  # pragma: no cover
         stats["helper_calls_inlined"] = 0
+    stats["generators_inlined"] = inline_new_generators(project, rec)
     # innermost (longest qualified name) first so that a nested function is settled before its parent
     for q in sorted(project.functions, key=lambda s: -s.count(".")):
         fi = project.functions[q]
@@ -1299,6 +1327,10 @@ def normalise(project, path=PINNED):
                     progress += drop_dead_new_locals(fi.node, rec_names | _params(fi.node))
                 if not progress:
                     progress += split_ret_tuples(fi.node)
+                if not progress:
+                    progress += collapse_copy_in_out(fi.node, rec_names | _params(fi.node))
+                if not progress:
+                    progress += split_selector_conditionals(fi.node, rec_names | _params(fi.node))
                 if not progress:
                     progress += unroll_constant_loops(fi.node, rec_names | _params(fi.node))
                 if not progress:
@@ -1367,6 +1399,34 @@ def inline_new_module_constants(project, rec):
                 consts[k] = v
         if not consts:
             continue
+        # constants defined in terms of other new constants (`B = (*A, x)`): substitute transitively, then flatten
+        # starred literal tuples
+        for _round in range(5):
+            again = False
+            for k in list(consts):
+
+                class T(ast.NodeTransformer):
+                    def visit_Name(self, n):
+                        nonlocal again
+                        if isinstance(n.ctx, ast.Load) and n.id in consts and n.id != k:
+                            again = True
+                            return ast.copy_location(copy.deepcopy(consts[n.id]), n)
+                        return n
+
+                    def visit_Tuple(self, n):
+                        self.generic_visit(n)
+                        if any(isinstance(x, ast.Starred) and isinstance(x.value, (ast.Tuple, ast.List)) for x in n.elts):
+                            elts = []
+                            for x in n.elts:
+                                elts.extend(x.value.elts if isinstance(x, ast.Starred) and isinstance(x.value, (ast.Tuple, ast.List)) else [x])
+                            n.elts = elts
+                        return n
+
+                    visit_List = visit_Tuple
+
+                consts[k] = T().visit(copy.deepcopy(consts[k]))
+            if not again:
+                break
         for fi in project.functions.values():
             if fi.module is not mod:
                 continue
@@ -1542,9 +1602,9 @@ def value_to_ast(v):
 def unroll_constant_loops(fn, rec_names):
     """`for i, name in enumerate(("a", "b")): kw[name] = v[i]` -> `kw["a"] = v[0]; kw["b"] = v[1]`, and a list
     comprehension over a literal table -> the list literal: the inverse of `replace repeated statements by a loop over
-    a table of names`.  Only for loops whose iterable folds to a constant (see const_fold), whose loop variables are
-    not locals of the recorded function, and whose body neither leaves the loop (break / continue / return) nor
-    rebinds a loop variable."""
+    a table of names`.  Only for loops whose iterable folds to a constant (see const_fold) or is written as a literal
+    tuple / list of (side-effect free) expressions, whose loop variables are not locals of the recorded function, and
+    whose body neither leaves the loop (break / continue / return) nor rebinds a loop variable."""
     import copy
 
     done = [0]
@@ -1556,10 +1616,37 @@ def unroll_constant_loops(fn, rec_names):
         class S(ast.NodeTransformer):
             def visit_Name(self, n):
                 if n.id in binding and isinstance(n.ctx, ast.Load):
-                    return ast.copy_location(value_to_ast(binding[n.id]), n)
+                    return ast.copy_location(copy.deepcopy(binding[n.id]), n)
                 return n
 
         return S().visit(copy.deepcopy(node))
+
+    def items_of(it):
+        """The elements of the iterable as expressions, or None."""
+        try:
+            seq = const_fold(it)
+            if isinstance(seq, (tuple, list)) and len(seq) <= 64:
+                return [value_to_ast(v) for v in seq]
+            return None
+        except _NoFold:
+            pass
+        if isinstance(it, (ast.Tuple, ast.List)) and not any(isinstance(x, ast.Starred) for x in it.elts) and len(it.elts) <= 64:
+            if all(not any(isinstance(y, (ast.Call, ast.NamedExpr, ast.Yield, ast.Await, ast.Lambda)) for y in ast.walk(x)) for x in it.elts):
+                return list(it.elts)
+        if isinstance(it, ast.Call) and isinstance(it.func, ast.Name) and it.func.id == "enumerate" and len(it.args) == 1 and not it.keywords:
+            inner = items_of(it.args[0])
+            if inner is not None:
+                return [ast.Tuple(elts=[ast.Constant(value=i), x], ctx=ast.Load()) for i, x in enumerate(inner)]
+        return None
+
+    def bind(tg, item, binding):
+        if isinstance(tg, ast.Name):
+            binding[tg.id] = item
+        elif isinstance(tg, (ast.Tuple, ast.List)) and isinstance(item, (ast.Tuple, ast.List)) and len(item.elts) == len(tg.elts) and not any(isinstance(x, ast.Starred) for x in tg.elts):
+            for x, y in zip(tg.elts, item.elts):
+                bind(x, y, binding)
+        else:
+            raise _NoFold
 
     def try_unroll_for(st):
         if not isinstance(st, ast.For) or st.orelse:
@@ -1567,11 +1654,8 @@ def unroll_constant_loops(fn, rec_names):
         vs = loop_vars(st.target)
         if not vs or vs & rec_names:
             return None
-        try:
-            seq = const_fold(st.iter)
-        except _NoFold:
-            return None
-        if not isinstance(seq, (tuple, list)) or not (0 < len(seq) <= 64):
+        seq = items_of(st.iter)
+        if not seq:
             return None
         for x in ast.walk(ast.Module(body=st.body, type_ignores=[])):
             if isinstance(x, (ast.Break, ast.Continue, ast.Return, ast.Yield, ast.YieldFrom, ast.FunctionDef, ast.Lambda)):
@@ -1579,14 +1663,14 @@ def unroll_constant_loops(fn, rec_names):
             if isinstance(x, ast.Name) and isinstance(x.ctx, (ast.Store, ast.Del)) and x.id in vs:
                 return None
         out = []
-        for v in seq:
+        for item in seq:
             binding = {}
             try:
-                _bind_target(st.target, v, binding)
+                bind(st.target, item, binding)
             except _NoFold:
                 return None
-            for b in st.body:
-                out.append(ast.copy_location(subst(b, binding), st))
+            for b_ in st.body:
+                out.append(ast.copy_location(subst(b_, binding), st))
         return out
 
     def walk_body(body):
@@ -1608,44 +1692,396 @@ def unroll_constant_loops(fn, rec_names):
 
     walk_body(fn.body)
 
+    def unroll_comp(n):
+        vs = set()
+        for g in n.generators:
+            vs |= loop_vars(g.target)
+        if vs & rec_names:
+            return None
+        out = []
+
+        def gen(i, binding):
+            if i == len(n.generators):
+                out.append(subst(n.elt, binding))
+                return
+            g = n.generators[i]
+            if g.ifs or g.is_async:
+                raise _NoFold
+            seq = items_of(subst(g.iter, binding))
+            if seq is None:
+                raise _NoFold
+            for item in seq:
+                b2 = dict(binding)
+                bind(g.target, item, b2)
+                gen(i + 1, b2)
+
+        try:
+            gen(0, {})
+        except _NoFold:
+            return None
+        return out or None
+
     class C(ast.NodeTransformer):
         def visit_ListComp(self, n):
             self.generic_visit(n)
-            vs = set()
-            for g in n.generators:
-                vs |= loop_vars(g.target)
-            if vs & rec_names:
-                return n
-            # every generator's iterable must fold given the outer ones; build the element list by substitution
-            out = []
-
-            def gen(i, binding):
-                if i == len(n.generators):
-                    out.append(subst(n.elt, binding))
-                    return
-                g = n.generators[i]
-                if g.ifs or g.is_async:
-                    raise _NoFold
-                seq = const_fold(subst(g.iter, binding))
-                if not isinstance(seq, (tuple, list)) or len(seq) > 64:
-                    raise _NoFold
-                for v in seq:
-                    b2 = dict(binding)
-                    _bind_target(g.target, v, b2)
-                    gen(i + 1, b2)
-
-            try:
-                gen(0, {})
-            except _NoFold:
-                return n
-            if not out:
+            out = unroll_comp(n)
+            if out is None:
                 return n
             done[0] += 1
             return ast.copy_location(ast.List(elts=out, ctx=ast.Load()), n)
 
+        def visit_Assign(self, n):
+            self.generic_visit(n)
+            # `a, b, c = (f(k) for k in (K1, K2, K3))`: a generator consumed by unpacking
+            if len(n.targets) == 1 and isinstance(n.targets[0], (ast.Tuple, ast.List)) and isinstance(n.value, ast.GeneratorExp):
+                out = unroll_comp(n.value)
+                if out is not None and len(out) == len(n.targets[0].elts):
+                    done[0] += 1
+                    n.value = ast.copy_location(ast.Tuple(elts=out, ctx=ast.Load()), n.value)
+            return n
+
+        def visit_Call(self, n):
+            self.generic_visit(n)
+            if isinstance(n.func, ast.Name) and n.func.id in ("tuple", "list") and len(n.args) == 1 and not n.keywords and isinstance(n.args[0], ast.GeneratorExp):
+                out = unroll_comp(n.args[0])
+                if out is not None:
+                    done[0] += 1
+                    lit = ast.Tuple(elts=out, ctx=ast.Load()) if n.func.id == "tuple" else ast.List(elts=out, ctx=ast.Load())
+                    return ast.copy_location(lit, n)
+            return n
+
     C().visit(fn)
     if done[0]:
         ast.fix_missing_locations(fn)
+    return done[0]
+
+
+def split_selector_conditionals(fn, rec_names):
+    """`x = A if c1 else (B if c2 else None); if x is not None: BODY(x)` -> `if c1: BODY(A)` / `if c2: BODY(B)`:
+    the inverse of `move a cascade of checks into a helper that returns the violated item or None`.  Only for a new
+    local x that is not used after the test, whose selected values are attribute chains / constants (never None)."""
+    import copy
+
+    done = [0]
+
+    def leaves(e, conds):
+        if isinstance(e, ast.IfExp):
+            return leaves(e.body, conds + [(e.test, True)]) + leaves(e.orelse, conds + [(e.test, False)])
+        return [(conds, e)]
+
+    def is_none(e):
+        return isinstance(e, ast.Constant) and e.value is None
+
+    def plain(e):
+        return (isinstance(e, ast.Constant) and e.value not in (None, False, 0, "", 0.0)) or (isinstance(e, ast.Attribute) and all(isinstance(x, (ast.Attribute, ast.Name, ast.Load)) for x in ast.walk(e)))
+
+    def used_later(name, stmts):
+        return any(isinstance(x, ast.Name) and x.id == name for st in stmts for x in ast.walk(st))
+
+    def leaves_block(body):
+        return bool(body) and isinstance(body[-1], (ast.Return, ast.Raise, ast.Continue, ast.Break))
+
+    def walk(body, tail_after):
+        i = 0
+        while i + 1 < len(body):
+            a, b = body[i], body[i + 1]
+            if isinstance(a, ast.Assign) and len(a.targets) == 1 and isinstance(a.targets[0], ast.Name) and a.targets[0].id not in rec_names and isinstance(a.value, ast.IfExp) and isinstance(b, ast.If) and not b.orelse:
+                x = a.targets[0].id
+                t = b.test
+                positive = (isinstance(t, ast.Compare) and len(t.ops) == 1 and isinstance(t.ops[0], ast.IsNot) and isinstance(t.left, ast.Name) and t.left.id == x and is_none(t.comparators[0])) or (isinstance(t, ast.Name) and t.id == x)
+                lv = leaves(a.value, [])
+                # a right-leaning chain: every alternative but the last is selected by `c_k and not c_1 .. not c_(k-1)`
+                chain_ok = all(all(pol is False for _c, pol in conds[:-1]) and (not conds or conds[-1][1] is True) for conds, _leaf in lv[:-1]) and all(pol is False for _c, pol in lv[-1][0])
+                vals_ok = all(plain(leaf) for _c, leaf in lv[:-1]) and (is_none(lv[-1][1]) or plain(lv[-1][1]))
+                if positive and chain_ok and vals_ok and not used_later(x, body[i + 2 :] + tail_after) and len(lv) >= 2:
+
+                    def inst(leaf):
+                        class S(ast.NodeTransformer):
+                            def visit_Name(self, n):
+                                return ast.copy_location(copy.deepcopy(leaf), n) if n.id == x and isinstance(n.ctx, ast.Load) else n
+
+                        return [S().visit(copy.deepcopy(st)) for st in b.body]
+
+                    branches = [(conds[-1][0], inst(leaf)) for conds, leaf in lv[:-1]]
+                    last = None if is_none(lv[-1][1]) else inst(lv[-1][1])
+                    if leaves_block(b.body):
+                        new = [ast.copy_location(ast.If(test=copy.deepcopy(c), body=bd, orelse=[]), b) for c, bd in branches]
+                        if last is not None:
+                            new.extend(last)
+                    else:
+                        node = last or []
+                        for c, bd in reversed(branches):
+                            node = [ast.copy_location(ast.If(test=copy.deepcopy(c), body=bd, orelse=node), b)]
+                        new = node
+                    body[i : i + 2] = new
+                    done[0] += 1
+                    continue
+            # (b) `x = V; if x is not None: BODY(x)` with a plain value, None, or another new local
+            if isinstance(a, ast.Assign) and len(a.targets) == 1 and isinstance(a.targets[0], ast.Name) and a.targets[0].id not in rec_names and isinstance(b, ast.If) and not b.orelse:
+                x = a.targets[0].id
+                t = b.test
+                positive = (isinstance(t, ast.Compare) and len(t.ops) == 1 and isinstance(t.ops[0], ast.IsNot) and isinstance(t.left, ast.Name) and t.left.id == x and is_none(t.comparators[0])) or (isinstance(t, ast.Name) and t.id == x)
+                v = a.value
+                if positive and not used_later(x, body[i + 2 :] + tail_after) and (is_none(v) or plain(v) or (isinstance(v, ast.Name) and v.id not in rec_names)):
+
+                    def inst2(leaf):
+                        class S(ast.NodeTransformer):
+                            def visit_Name(self, n):
+                                return ast.copy_location(copy.deepcopy(leaf), n) if n.id == x and isinstance(n.ctx, ast.Load) else n
+
+                        return S().visit(copy.deepcopy(b))
+
+                    if is_none(v):
+                        body[i : i + 2] = []
+                    elif plain(v):
+                        body[i : i + 2] = inst2(v).body
+                    else:
+                        body[i : i + 2] = [inst2(v)]
+                    done[0] += 1
+                    continue
+            # (b') `x = <boolean expression>; if x: BODY` (x a new local, not read afterwards): the test is the expression
+            if isinstance(a, ast.Assign) and len(a.targets) == 1 and isinstance(a.targets[0], ast.Name) and a.targets[0].id not in rec_names and isinstance(b, ast.If) and isinstance(a.value, (ast.Compare, ast.BoolOp, ast.IfExp)) or (isinstance(a, ast.Assign) and len(a.targets) == 1 and isinstance(a.targets[0], ast.Name) and a.targets[0].id not in rec_names and isinstance(b, ast.If) and isinstance(a.value, ast.UnaryOp) and isinstance(a.value.op, ast.Not)):
+                x = a.targets[0].id
+                t = b.test
+                core = t.operand if isinstance(t, ast.UnaryOp) and isinstance(t.op, ast.Not) else t
+                reads = [n for st in [b] for n in ast.walk(st) if isinstance(n, ast.Name) and n.id == x]
+                if isinstance(core, ast.Name) and core.id == x and len(reads) == 1 and not used_later(x, body[i + 2 :] + tail_after):
+                    val = copy.deepcopy(a.value)
+                    b.test = ast.copy_location(ast.UnaryOp(op=ast.Not(), operand=val), t) if core is not t else val
+                    del body[i]
+                    done[0] += 1
+                    continue
+            # (c) `if P: ..; x = E1 else: ..; x = E2` followed by `if x is not None: BODY`: the test moves to the end of
+            #     both branches (x is assigned last in each, and nothing else reads it)
+            if isinstance(a, ast.If) and a.orelse and isinstance(b, ast.If) and not b.orelse:
+                t = b.test
+                xn = None
+                if isinstance(t, ast.Compare) and len(t.ops) == 1 and isinstance(t.ops[0], ast.IsNot) and isinstance(t.left, ast.Name) and is_none(t.comparators[0]):
+                    xn = t.left.id
+                elif isinstance(t, ast.Name):
+                    xn = t.id
+
+                def ends_with_assign(blk):
+                    return bool(blk) and isinstance(blk[-1], ast.Assign) and len(blk[-1].targets) == 1 and isinstance(blk[-1].targets[0], ast.Name) and blk[-1].targets[0].id == xn
+
+                if xn is not None and xn not in rec_names and ends_with_assign(a.body) and ends_with_assign(a.orelse) and not used_later(xn, body[i + 2 :] + tail_after):
+                    a.body.append(copy.deepcopy(b))
+                    a.orelse.append(copy.deepcopy(b))
+                    del body[i + 1]
+                    done[0] += 1
+                    continue
+            i += 1
+        for k, st in enumerate(body):
+            after = body[k + 1 :] + tail_after
+            for fld in ("body", "orelse", "finalbody"):
+                sub = getattr(st, fld, None)
+                if isinstance(sub, list) and sub and isinstance(sub[0], ast.stmt):
+                    walk(sub, after if not isinstance(st, (ast.For, ast.While)) else after + [st])
+            for h in getattr(st, "handlers", []) or []:
+                walk(h.body, after)
+
+    for _round in range(6):
+        before = done[0]
+        walk(fn.body, [])
+        if done[0] == before:
+            break
+    if done[0]:
+        ast.fix_missing_locations(fn)
+    return done[0]
+
+
+def inline_new_generators(project, rec):
+    """A generator the record does not know, used as an iteration helper (`for t in self._steps(): BODY` or
+    `x = [E(t) for t in self._steps()]`), is put back: the generator's body with its single `yield V` replaced by the
+    consumer (`t = V; BODY` resp. `x.append(E(V))`) - the inverse of `extract the loop header into a generator`.
+    Only for generators with exactly one `yield` statement (no value sent in, no return value, no try / with), and
+    consumers that do not `continue` (which would skip the generator's own bookkeeping after the yield)."""
+    import copy
+
+    gens = {}
+    for q, fi in project.functions.items():
+        if q in rec or fi.kind == "nested":
+            continue
+        ys = [n for n in ast.walk(fi.node) if isinstance(n, (ast.Yield, ast.YieldFrom))]
+        if len(ys) != 1 or not isinstance(ys[0], ast.Yield) or ys[0].value is None:
+            continue
+        if any(isinstance(n, (ast.Try, ast.With, ast.Lambda, ast.Global, ast.Nonlocal)) or (isinstance(n, (ast.FunctionDef, ast.ClassDef)) and n is not fi.node) for n in ast.walk(fi.node)):
+            continue
+        if any(isinstance(n, ast.Return) and n.value is not None for n in ast.walk(fi.node)):
+            continue
+        stmt = [n for n in ast.walk(fi.node) if isinstance(n, ast.Expr) and n.value is ys[0]]
+        ps = _simple_params(fi.node)
+        if len(stmt) != 1 or ps is None or any(ast.unparse(d) not in ("staticmethod",) for d in fi.node.decorator_list):
+            continue
+        a = fi.node.args
+        defaults = dict(zip([x.arg for x in a.args][len(a.args) - len(a.defaults) :], a.defaults))
+        gens[q] = (fi, ps, defaults, stmt[0])
+    if not gens:
+        return 0
+    count = 0
+
+    def resolve(call, caller):
+        f = call.func
+        if isinstance(f, ast.Name):
+            q = f"{caller.module.name}.{f.id}"
+            if q in gens:
+                return gens[q], False
+        if isinstance(f, ast.Attribute) and isinstance(f.value, ast.Name) and f.value.id == "self" and caller.cls is not None:
+            m = project.lookup_method(caller.cls, f.attr)
+            if m is not None and m.qualname in gens:
+                return gens[m.qualname], not any(ast.unparse(d) == "staticmethod" for d in m.node.decorator_list)
+        return None, False
+
+    def expand(got, drop, call, caller_node, consume):
+        """statements of the generator with `yield V` replaced by consume(V)"""
+        gfi, ps, defaults, ystmt = got
+        b = _bind(call, ps, defaults, drop)
+        if b is None:
+            return None
+        taken = {n.id for n in ast.walk(caller_node) if isinstance(n, ast.Name)}
+        glocals = {n.id for n in ast.walk(gfi.node) if isinstance(n, ast.Name) and isinstance(n.ctx, (ast.Store, ast.Del))}
+        ren = {g: (g if g not in taken else f"{g}_g{count + 1}") for g in glocals}
+        body = [st for st in gfi.node.body if not (isinstance(st, ast.Expr) and isinstance(st.value, ast.Constant))]
+
+        class S(ast.NodeTransformer):
+            def visit_Name(self, n):
+                if n.id in ren:
+                    return ast.copy_location(ast.Name(id=ren[n.id], ctx=n.ctx), n)
+                if n.id in b and isinstance(n.ctx, ast.Load):
+                    return ast.copy_location(copy.deepcopy(b[n.id]), n)
+                return n
+
+            def visit_Expr(self, n):
+                if n is ystmt_copy[0]:
+                    v = self.visit(n.value.value)
+                    return consume(v)
+                return self.generic_visit(n)
+
+            def visit_Return(self, n):
+                return n
+
+        out = []
+        ystmt_copy = [None]
+        for st in body:
+            c = copy.deepcopy(st)
+            # locate the copy of the yield statement by position
+            orig = list(ast.walk(st))
+            cop = list(ast.walk(c))
+            for o, k in zip(orig, cop):
+                if o is ystmt:
+                    ystmt_copy[0] = k
+            r = S().visit(c)
+            if isinstance(r, list):
+                out.extend(r)
+            elif r is not None:
+                out.append(r)
+        if any(isinstance(n, ast.Return) for st in out for n in ast.walk(st)):
+            return None
+        return out
+
+    for q, caller in list(project.functions.items()):
+        if q not in rec:
+            continue
+        fn = caller.node
+        changed = False
+        for _owner, blk in list(_blocks(fn)):
+            i = 0
+            while i < len(blk):
+                st = blk[i]
+                new = None
+                if isinstance(st, ast.For) and not st.orelse and isinstance(st.iter, ast.Call) and isinstance(st.target, ast.Name):
+                    got, drop = resolve(st.iter, caller)
+                    if got is not None and not any(isinstance(n, ast.Continue) for b_ in st.body for n in ast.walk(b_)):
+                        tgt = st.target.id
+
+                        def consume(v, st=st, tgt=tgt):
+                            return [ast.copy_location(ast.Assign(targets=[ast.Name(id=tgt, ctx=ast.Store())], value=v), st)] + copy.deepcopy(st.body)
+
+                        new = expand(got, drop, st.iter, fn, consume)
+                elif isinstance(st, ast.Assign) and len(st.targets) == 1 and isinstance(st.targets[0], ast.Name) and isinstance(st.value, ast.ListComp) and len(st.value.generators) == 1 and not st.value.generators[0].ifs and isinstance(st.value.generators[0].iter, ast.Call) and isinstance(st.value.generators[0].target, ast.Name):
+                    g = st.value.generators[0]
+                    got, drop = resolve(g.iter, caller)
+                    if got is not None:
+                        lst, var, elt = st.targets[0].id, g.target.id, st.value.elt
+
+                        def consume(v, st=st, lst=lst, var=var, elt=elt):
+                            class R(ast.NodeTransformer):
+                                def visit_Name(self, n):
+                                    return copy.deepcopy(v) if n.id == var and isinstance(n.ctx, ast.Load) else n
+
+                            item = R().visit(copy.deepcopy(elt))
+                            call = ast.Call(func=ast.Attribute(value=ast.Name(id=lst, ctx=ast.Load()), attr="append", ctx=ast.Load()), args=[item], keywords=[])
+                            return [ast.copy_location(ast.Expr(value=call), st)]
+
+                        body = expand(got, drop, g.iter, fn, consume)
+                        if body is not None:
+                            new = [ast.copy_location(ast.Assign(targets=[ast.Name(id=lst, ctx=ast.Store())], value=ast.List(elts=[], ctx=ast.Load())), st)] + body
+                if new is not None:
+                    for x in new:
+                        ast.fix_missing_locations(x)
+                    blk[i : i + 1] = new
+                    count += 1
+                    changed = True
+                    i += len(new)
+                    continue
+                i += 1
+        if changed and hasattr(caller, "_cfg"):
+            del caller._cfg
+    return count
+
+
+def collapse_copy_in_out(fn, rec_names):
+    """`t = x; ...t...; x = t` (t a new local, x not touched in between, t dead afterwards) -> the statements in
+    between with t spelled x: what inlining a helper that rebinds its parameters and returns them leaves behind."""
+    done = [0]
+
+    def names(st, ctxs):
+        return {n.id for n in ast.walk(st) if isinstance(n, ast.Name) and isinstance(n.ctx, ctxs)}
+
+    def walk(body, after):
+        i = 0
+        while i < len(body):
+            a = body[i]
+            if isinstance(a, ast.Assign) and len(a.targets) == 1 and isinstance(a.targets[0], ast.Name) and isinstance(a.value, ast.Name) and a.targets[0].id not in rec_names and a.targets[0].id != a.value.id:
+                t, x = a.targets[0].id, a.value.id
+                j = None
+                for k in range(i + 1, len(body)):
+                    b = body[k]
+                    if isinstance(b, ast.Assign) and len(b.targets) == 1 and isinstance(b.targets[0], ast.Name) and b.targets[0].id == x and isinstance(b.value, ast.Name) and b.value.id == t:
+                        j = k
+                        break
+                if j is not None:
+                    between = body[i + 1 : j]
+                    touched = any(x in names(st, (ast.Load, ast.Store, ast.Del)) for st in between)
+                    # every occurrence of t in the function lies inside the region (then a later loop iteration
+                    # re-enters through the copy-in as well)
+                    total = sum(1 for n in ast.walk(fn) if isinstance(n, ast.Name) and n.id == t)
+                    inside = sum(1 for st in body[i : j + 1] for n in ast.walk(st) if isinstance(n, ast.Name) and n.id == t)
+                    used_after = total != inside
+                    if not touched and not used_after:
+
+                        class R(ast.NodeTransformer):
+                            def visit_Name(self, n):
+                                return ast.copy_location(ast.Name(id=x, ctx=n.ctx), n) if n.id == t else n
+
+                        body[i : j + 1] = [R().visit(st) for st in between]
+                        done[0] += 1
+                        continue
+            i += 1
+        for k, st in enumerate(body):
+            rest = body[k + 1 :] + after
+            for fld in ("body", "orelse", "finalbody"):
+                sub = getattr(st, fld, None)
+                if isinstance(sub, list) and sub and isinstance(sub[0], ast.stmt):
+                    walk(sub, rest + ([st] if isinstance(st, (ast.For, ast.While)) else []))
+            for h in getattr(st, "handlers", []) or []:
+                walk(h.body, rest)
+
+    for _round in range(8):
+        before = done[0]
+        walk(fn.body, [])
+        if done[0] == before:
+            break
     return done[0]
 
 
@@ -1654,6 +2090,20 @@ def fold_list_concat(fn):
     n_fold = [0]
 
     class F(ast.NodeTransformer):
+        def _flatten_starred(self, n):
+            self.generic_visit(n)
+            # `f(*(a, b), *(c,))` -> `f(a, b, c)`: starred literal tuples in an argument list
+            if any(isinstance(a, ast.Starred) and isinstance(a.value, (ast.Tuple, ast.List)) and not any(isinstance(x, ast.Starred) for x in a.value.elts) for a in n.args):
+                args = []
+                for a in n.args:
+                    if isinstance(a, ast.Starred) and isinstance(a.value, (ast.Tuple, ast.List)) and not any(isinstance(x, ast.Starred) for x in a.value.elts):
+                        args.extend(a.value.elts)
+                    else:
+                        args.append(a)
+                n.args = args
+                n_fold[0] += 1
+            return n
+
         def visit_BinOp(self, n):
             self.generic_visit(n)
             if isinstance(n.op, ast.Add) and isinstance(n.left, ast.List) and isinstance(n.right, ast.List) and not any(isinstance(x, ast.Starred) for x in n.left.elts + n.right.elts):
@@ -1662,7 +2112,7 @@ def fold_list_concat(fn):
             return n
 
         def visit_Call(self, n):
-            self.generic_visit(n)
+            n = self._flatten_starred(n)
             if isinstance(n.func, ast.Name) and n.func.id == "getattr" and len(n.args) == 2 and not n.keywords and isinstance(n.args[1], ast.Constant) and isinstance(n.args[1].value, str) and n.args[1].value.isidentifier():
                 # getattr(x, "name") is x.name
                 n_fold[0] += 1
